@@ -386,7 +386,8 @@ impl<'a> StringParser<'a> {
                         }
                     }
                 }
-                ' ' if self_documenting => {
+                // any whitespace may follow the `=` of a self-documenting expression
+                ' ' | '\t' | '\n' | '\r' | '\x0b' | '\x0c' if self_documenting => {
                     trailing_seq.push(ch);
                 }
                 '\\' => return Err(FStringError::new(UnterminatedString, self.get_pos()).into()),
